@@ -126,7 +126,7 @@ def run(tier, seed):
                         'forming/comparing out-of-bounds pointers without dereferencing (MicroMessage.c does this by design) is reported separately as unconfirmable UB'],
         'functions_encoded': ['MicroMessage.c: whole file (read accessors)'],
     }
-    ufj = [j for j in jobs if j.family == 'unflattener']
+    ufj = [j for j in jobs if j.family == 'unflattener' and j.pdefs['IR2C_P0'] == 17 and j.pdefs['IR2C_P1'] in (6, 8)]
     return vrun.run_property('C02', tier, seed, jobs, meta, diff_jobs=ufj[:2])
 
 
